@@ -18,6 +18,9 @@ def _cfg(tier):
     for i, n in enumerate(ns):
         for mode in ('quantity', 'bare'):
             out.append({'n': n, 'mode': mode, 'unit': DIST_UNITS[(i * 2 + (mode == 'bare')) % len(DIST_UNITS)]})
+    # the full question sequence on one result object (see the harness) on the shorter trajectories
+    for n in ([2, 3] if tier == 'quick' else [2, 3, 4]):
+        out.append({'n': n, 'mode': 'quantity', 'unit': 'Foot', 'seq': True})
     return out
 
 
@@ -29,7 +32,15 @@ def _traj(ctx, p, n):
             ctx.assume(di > d[-1])
         d.append(di)
         drop.append(ctx.real(f'drop{i}', -1e4, 1e4))
-    rows = [mkrow(p, time=float(i), dist_ft=d[i], drop_ft=drop[i]) for i in range(n)]
+    # the sight-line distance column is independent of the (horizontal) distance column: any inclination
+    look = []
+    for i in range(n):
+        li = ctx.real(f'lookdist{i}', 0, 2e5)
+        ctx.assume(li >= d[i])
+        if i:
+            ctx.assume(li > look[-1])
+        look.append(li)
+    rows = [mkrow(p, time=float(i), dist_ft=d[i], drop_ft=drop[i], look_ft=look[i]) for i in range(n)]
     return d, drop, rows
 
 
@@ -38,9 +49,10 @@ def _traj(ctx, p, n):
                      'rising', 'falling'],
          bounds='trajectories of N = 1..5 (quick) / 1..7 (thorough) rows, distances strictly increasing in [0,1e5] ft, drops arbitrary in '
                 '[-1e4,1e4] ft; range request and target height (>= 0) symbolic, given as quantity (each distance unit) or bare number under '
-                'the preferred unit; second call with a larger height for monotonicity',
+                'the preferred unit; the same result object asked four more times (taller target: all claims again + monotone; the first height again; another range; the taller target again); '
+                'sight-line distance column independent of the distance column (any inclination); symbolic look angle argument',
          assumptions=['floats as reals: the scans only compare differences of drops with half the height (order-only code, exact up to rounding of the subtraction)'])
-def c16_space(ctx, n, mode, unit):
+def c16_space(ctx, n, mode, unit, seq=False):
     p = pybc()
     U = getattr(p.Unit, unit)
     d, drop, rows = _traj(ctx, p, n)
@@ -49,11 +61,12 @@ def c16_space(ctx, n, mode, unit):
     h = ctx.real('height_ft', 0, 1e4)            # target height (feet)
     dh = ctx.real('extra_height_ft', 0, 1e4)
     to_u = lambda ft: ft * (si.FOOT / si.LENGTH_M[unit])    # the same length expressed in `unit`
+    lk = ctx.real('look_rad', -1.5, 1.5)
     with with_preferred(distance=U):
         def call(height_ft):
             if mode == 'quantity':
-                return hr.danger_space(U(to_u(R)), U(to_u(height_ft)), p.Angular.Radian(0.0))
-            return hr.danger_space(to_u(R), to_u(height_ft), 0.0)
+                return hr.danger_space(U(to_u(R)), U(to_u(height_ft)), p.Angular.Radian(lk))
+            return hr.danger_space(to_u(R), to_u(height_ft), lk)
         try:
             ds = call(h)
             raised = False
@@ -66,27 +79,48 @@ def c16_space(ctx, n, mode, unit):
     ctx.check('beyond_raises', raised == beyond)
     if raised:
         return
-    ia, ib, ie = index_of(rows, ds.at_range), index_of(rows, ds.begin), index_of(rows, ds.end)
-    ctx.check('rows_of_trajectory', ia is not None and ib is not None and ie is not None)
-    # at-range row: first with distance >= request
-    ctx.check('at_range_is_first_reaching', ctx.all([din[ia] >= Rin] + [din[j] < Rin for j in range(ia)]))
-    ctx.check('brackets_request', ib <= ia <= ie)
-    half = U(to_u(h)).raw_value / 2        # half the height as the real unit code reads it (inches)
     drop = [r.target_drop.raw_value for r in rows]
-    for j in range(ib + 1, ie):
-        if j == ia:
-            continue
-        if drop[j] > drop[ia]:
-            ctx.reach('falling' if j < ia else 'rising')
-        ctx.check('inside_within_half_height', ctx.abs(drop[j] - drop[ia]) <= half, info={'row': j, 'at': ia, 'begin': ib, 'end': ie})
-    ctx.check('bound_is_edge_or_exceeds', (ib == 0) or (ctx.abs(drop[ib] - drop[ia]) >= half) or ib == ia, info={'bound': 'begin'})
-    ctx.check('bound_is_edge_or_exceeds', (ie == n - 1) or (ctx.abs(drop[ie] - drop[ia]) >= half) or ie == ia, info={'bound': 'end'})
-    ctx.check_eq('height_recorded', ds.target_height.raw_value, h * 12, rel=1e-9, abs=1e-9)
-    # monotone in the target height
+
+    def claims(ds, height_ft, tag):
+        ia, ib, ie = index_of(rows, ds.at_range), index_of(rows, ds.begin), index_of(rows, ds.end)
+        ctx.check('rows_of_trajectory', ia is not None and ib is not None and ie is not None, info={'call': tag})
+        # at-range row: first with distance >= request
+        ctx.check('at_range_is_first_reaching', ctx.all([din[ia] >= Rin] + [din[j] < Rin for j in range(ia)]), info={'call': tag})
+        ctx.check('brackets_request', ib <= ia <= ie, info={'call': tag})
+        half = U(to_u(height_ft)).raw_value / 2        # half the height as the real unit code reads it (inches)
+        for j in range(ib + 1, ie):
+            if j == ia:
+                continue
+            if drop[j] > drop[ia]:
+                ctx.reach('falling' if j < ia else 'rising')
+            ctx.check('inside_within_half_height', ctx.abs(drop[j] - drop[ia]) <= half, info={'row': j, 'at': ia, 'begin': ib, 'end': ie, 'call': tag})
+        ctx.check('bound_is_edge_or_exceeds', (ib == 0) or (ctx.abs(drop[ib] - drop[ia]) >= half) or ib == ia, info={'bound': 'begin', 'call': tag})
+        ctx.check('bound_is_edge_or_exceeds', (ie == n - 1) or (ctx.abs(drop[ie] - drop[ia]) >= half) or ie == ia, info={'bound': 'end', 'call': tag})
+        ctx.check_eq('height_recorded', ds.target_height.raw_value, height_ft * 12, rel=1e-9, abs=1e-9, info={'call': tag})
+        return ia, ib, ie
+    ia, ib, ie = claims(ds, h, 'first')
+    # the same result object asked again: a taller target (every claim again + monotone in the height), then the first height
+    # again (same answer as the first time), then a request at another range and the first one once more
     with with_preferred(distance=U):
         ds2 = call(h + dh)
     ib2, ie2 = index_of(rows, ds2.begin), index_of(rows, ds2.end)
     ctx.check('monotone_in_height', ib2 <= ib and ie2 >= ie, info={'b1': ib, 'b2': ib2, 'e1': ie, 'e2': ie2})
+    if not seq:
+        return
+    ia2, ib2, ie2 = claims(ds2, h + dh, 'second, taller target')
+    with with_preferred(distance=U):
+        ds3 = call(h)
+    ctx.check('same_question_same_answer', (index_of(rows, ds3.at_range), index_of(rows, ds3.begin), index_of(rows, ds3.end)) == (ia, ib, ie),
+              info={'first': (ia, ib, ie)})
+    if n >= 2:
+        with with_preferred(distance=U):
+            try:
+                hr.danger_space(U(to_u(din[0] / 12)), U(to_u(h + dh)), p.Angular.Radian(lk))
+            except ArithmeticError:
+                pass
+            ds4 = call(h + dh)
+        ctx.check('same_question_same_answer', (index_of(rows, ds4.at_range), index_of(rows, ds4.begin), index_of(rows, ds4.end)) == (ia2, ib2, ie2),
+                  info={'after': 'a request at another range'})
 
 
 @harness('C16.noextra', 'C16', functions=FUNCS, must_reach=['check:no_extra_data_rejected'],
